@@ -304,7 +304,8 @@ def _run_case(case):
 
         def shuffle(self, x):
             super().shuffle(x)
-            tr.perms.append([int(v) for v in x])
+            if tr.recording:
+                tr.perms.append([int(v) for v in x])
 
     def rewire(q):
         """copy.deepcopy turns the recording subclass back into a plain RandomState: put a recorder with the
@@ -429,9 +430,11 @@ def _append_one(case, q, fs, srcs, i, bound):
                     metadata=_meta_value(st, i))
 
 
-def _scribble_sources(case, srcs):
+def _scribble_sources(case, srcs, only=None):
     """The caller re-uses its own arrays after having queued them."""
-    for (src, _), st in zip(srcs, case['stims']):
+    for i, ((src, _), st) in enumerate(zip(srcs, case['stims'])):
+        if (st.get('late') and only is None) or (only is not None and i != only):
+            continue
         a = src if isinstance(src, np.ndarray) else getattr(src, 'waveform', None)
         if isinstance(a, np.ndarray) and a.flags.writeable:
             a[...] = 3
@@ -505,7 +508,9 @@ def _drive(case, q, tr, fs, t0, rewire=lambda q: None):
         original, q = q, q.clone()
         rewire(q)
         tr.recording = False
+        g = np.random.get_state()
         original.pop_buffer(23)
+        np.random.set_state(g)       # the bystander's draws are not part of this case's random stream
         tr.recording = True
         if shadow is None:
             shadow, st0 = original, t0
@@ -531,12 +536,15 @@ def _drive(case, q, tr, fs, t0, rewire=lambda q: None):
             continue
         if op[0] == 'append':
             keys.append(_append_one(case, q, fs, srcs, op[1], bound))
+            if case.get('meddle'):
+                _scribble_sources(case, srcs, only=op[1])
             tr.lines.append(f'ok {op[1]}')
             tr.steps.append({'op': op, 'status': 'ok', 'cells': [], 'add': [], 'rm': [], 'n_out': 0,
                              'ts': int(round(q.get_ts() * fs)), 'ts_exact': True, 'aux': True})
             continue
         if shadow is not None:
             tr.recording = False
+            g = np.random.get_state()
             try:
                 shadow.pop_buffer((7 * j + 3) % 11 + 1)
                 if j % 5 == 3:
@@ -544,6 +552,7 @@ def _drive(case, q, tr, fs, t0, rewire=lambda q: None):
                     shadow.resume()
             except Exception:      # the bystander's own fate is not the subject of this case
                 pass
+            np.random.set_state(g)
             tr.recording = True
         na, nr, ne = len(tr.added), len(tr.removed), tr.n_empty
         c0 = int(round(q.get_ts() * fs))
@@ -712,9 +721,93 @@ def policy_fields(name, rng, nstim):
         d['build'] = b
     if name == 'interleaved-nokeep':
         d.update(policy='interleaved', keep=0)
+    if name == 'blockedrandom' and rng.random() < 0.3:
+        d['keep'] = 0          # the inherited keep_complete_waveforms option at its non-default value
     if name == 'grouped':
-        d['gsize'] = rng.randint(1, nstim + 1)
+        d['gsize'] = rng.choice([rng.randint(1, nstim + 1)] * 4 + [nstim + 5, 1000])
     return d
+
+
+def spell(rng, c, finite_delays=False, p=0.6):
+    """Choose at random HOW the caller says what the case says (constructor route, argument types, containers,
+    keyword/positional, metadata, explicit durations, clone, a bystander queue, a meddling caller).
+    The case stays the same case: the model lines do not change (except the declared duration).
+    finite_delays: finite delay sequences are legal (no pause re-presents trials, every request decrements)."""
+    if rng.random() > p:
+        return c
+    if rng.random() < 0.5:
+        c['ctor'] = rng.choice(['pos', 'setfs', 'registry'])
+    if rng.random() < 0.3:
+        c['fsrep'] = rng.choice(['int', 'np'])
+    if rng.random() < 0.3:
+        c['t0rep'] = rng.choice(['skip', 'int', 'np'])
+    b = rng.choice([None, 'extend', 'mixed', 'extend-bcast', 'extend-bcast', 'pos'])
+    c.pop('build', None)
+    if b:
+        c['build'] = b
+    bcast_delay = b == 'extend-bcast' and rng.random() < 0.5
+    if rng.random() < 0.4:
+        c['nrep'] = rng.choice(['np64', 'np32', 'kw', 'posdec', 'mix', 'mix'])
+    if rng.random() < 0.3:
+        c['trep'] = rng.choice(['np', 'kw'])
+    if rng.random() < 0.15:
+        c['clone'] = 1
+    if rng.random() < 0.2:
+        c['shadow'] = rng.choice(['same', 'diff'])
+    if rng.random() < 0.3:
+        c['meddle'] = 1
+    same_trials = rng.random() < 0.3
+    for i, st in enumerate(c['stims']):
+        if same_trials:
+            st['trials'] = c['stims'][0]['trials']
+        if rng.random() < 0.3:
+            st['trep'] = rng.choice(['np64', 'np32', 'float'])
+        if bcast_delay:
+            st['delays'] = list(c['stims'][0]['delays'][:1])      # one scalar delay for all: extend() broadcasts it
+        elif rng.random() < 0.4:
+            forms = ['none', 'int', 'np', 'gen']
+            if finite_delays:
+                forms += ['list', 'tuple', 'ndarray']
+            st['dform'] = rng.choice(forms)
+            if st['dform'] in ('none', 'int') and rng.random() < 0.7:
+                st['delays'] = [0]
+        if rng.random() < 0.4:
+            st['meta'] = 1
+        if st['src'] in ('arr', 'fixed') and rng.random() < 0.4:
+            st['dtype'] = rng.choice(['f4', 'i4', 'i8', 'strided'] + (['i2'] if i < 7 and 'enc' not in c else []))
+        if rng.random() < 0.2 and not st.get('xdur'):
+            st['declare'] = 1
+        if c.get('clone') and st.get('dform') == 'gen':
+            del st['dform']        # Python cannot deep-copy a running generator: not a legal argument for clone()
+    return c
+
+
+CASE_SPELLINGS = ('ctor', 'fsrep', 't0rep', 'build', 'clone', 'shadow', 'meddle', 'nrep', 'trep')
+STIM_SPELLINGS = ('trep', 'dform', 'meta', 'dtype', 'declare', 'xdur')
+
+
+def drop_stim(c, i):
+    """The case without stimulus i (late appends of it dropped, later ones renumbered)."""
+    ops = []
+    for op in c['ops']:
+        if op[0] == 'append':
+            if op[1] == i:
+                continue
+            op = ['append', op[1] - 1] if op[1] > i else op
+        ops.append(op)
+    return dict(c, stims=c['stims'][:i] + c['stims'][i + 1:], ops=ops)
+
+
+def unspell_candidates(c):
+    """Shrinking: the same case with one spelling choice back at its plain form."""
+    for f in CASE_SPELLINGS:
+        if c.get(f):
+            yield {k: v for k, v in c.items() if k != f}
+    for i, st in enumerate(c['stims']):
+        for f in STIM_SPELLINGS:
+            if st.get(f):
+                s2 = {k: v for k, v in st.items() if k != f}
+                yield dict(c, stims=c['stims'][:i] + [s2] + c['stims'][i + 1:])
 
 
 def policy_name(case):
